@@ -39,13 +39,14 @@ MAX_PATH_LEN = 12
 
 # (cfg, max number of paths replayed (None = whole cover))
 CFG = {
-    "quick": [("RtCrossQuick.cfg", 1700), ("RtSingleSet.cfg", 1700), ("RtPairsQuick.cfg", 2100)],
-    "thorough": [("RtCrossSet.cfg", 16000), ("RtSingleSet.cfg", None), ("RtPairs.cfg", 15000),
-                 ("RtPairsDomain.cfg", 13000), ("RtTriples.cfg", 6000)],
+    "quick": [("RtCrossQuick.cfg", 1700), ("RtSingleSet.cfg", 1500), ("RtPairsQuick.cfg", 1900),
+              ("RtOptQuick.cfg", 300)],
+    "thorough": [("RtCrossSet.cfg", 14000), ("RtSingleSet.cfg", None), ("RtPairs.cfg", 13000),
+                 ("RtPairsDomain.cfg", 12000), ("RtTriples.cfg", 6000), ("RtOptSet.cfg", 6000)],
 }
-IDEAL = {"quick": ["RtIdealSingleSet.cfg", "RtIdealPairsQuick.cfg"],
+IDEAL = {"quick": ["RtIdealSingleSet.cfg", "RtIdealPairsQuick.cfg", "RtIdealOptQuick.cfg"],
          "thorough": ["RtIdealCrossSet.cfg", "RtIdealSingleSet.cfg", "RtIdealPairs.cfg", "RtIdealPairsDomain.cfg",
-                      "RtIdealTriples.cfg"]}
+                      "RtIdealTriples.cfg", "RtIdealOptSet.cfg"]}
 # deviation alone => NoViolation must fail (negative controls, vacuity of the invariants)
 NEGATIVE = {
     "quick": ["EmptyStrAsNone", "InfTextAsFloat", "UuidTextAsId", "NoneMemberAsText", "IsValueFlipOnNone",
@@ -74,11 +75,14 @@ STRS = ["abc", "héllo wörld", 'q"uo\\te', " lead trail ", "1e5", "nan", "None"
 STRS2 = ["x y", "-inf ", "0", "False", "geoh5", "ß"]
 
 
-def fixture():
-    """Real workspace file in this process' scratch dir: Points P with data a, b, property group pg,
-    ContainerGroup G, DrillholeGroup DHG."""
+def fixture(big=False):
+    """Real workspace file in this process' scratch dir: Points P with data a, b, property group pg, ContainerGroup G,
+    DrillholeGroup DHG; the big one has two more Points objects Q, R with one data and one property group each
+    (pg2, pg3) - it costs twice as much to open and is used by the paths that mention a property group and by
+    every tenth other path."""
     base = scratch()
-    fx = _FIX.get(base)
+    key = (base, big)
+    fx = _FIX.get(key)
     if fx is not None and os.path.exists(fx["path"]):
         return fx
     import numpy as np
@@ -88,7 +92,7 @@ def fixture():
     # neither the workspace nor the ui.json files live in the current directory (= base)
     os.makedirs(os.path.join(base, "ws"), exist_ok=True)
     os.makedirs(os.path.join(base, "out"), exist_ok=True)
-    path = os.path.join(base, "ws", "c14_fixture.geoh5")
+    path = os.path.join(base, "ws", "c14_fixture_big.geoh5" if big else "c14_fixture.geoh5")
     if os.path.exists(path):
         os.remove(path)
     ws = Workspace.create(path)
@@ -99,11 +103,18 @@ def fixture():
     pgr = pts.add_data_to_group([da, db], "pg")
     pgr.property_group_type = "Multi-element"
     ents = {"obj": pts, "data": da, "data2": db, "pg": pgr, "grp": grp, "dh": dhg}
+    if big:
+        for tok, name in (("pg2", "Q"), ("pg3", "R")):
+            other = Points.create(ws, vertices=np.zeros((2, 3)), name=name)
+            dat = other.add_data({"c" + name: {"values": np.zeros(2)}})
+            ents[tok] = other.add_data_to_group([dat], tok)
+            ents[tok].property_group_type = "Multi-element"
     uids = {k: v.uid for k, v in ents.items()}
     ws.close()
-    fx = {"path": path, "ents": ents, "uids": uids}
-    _FIX.clear()
-    _FIX[base] = fx
+    fx = {"path": path, "ents": ents, "uids": uids, "name": os.path.basename(path)}
+    for stale in [k for k in _FIX if k[0] != base]:
+        del _FIX[stale]
+    _FIX[key] = fx
     return fx
 
 
@@ -285,7 +296,7 @@ def build_form(form, reps, fx):
     elif kind == "object":
         out = templates.object_parameter(value=value, optional=opt, multi_select=form["value"]["l"])
     elif kind == "data":
-        is_pg = any(t["x"] == "pg" for t in form["value"]["e"])
+        is_pg = any(t["x"].startswith("pg") for t in form["value"]["e"])
         out = templates.data_parameter(value=value, optional=opt, parent=parent,
                                        data_group_type="Multi-element" if is_pg else None)
     elif kind == "datavalue":
@@ -396,10 +407,11 @@ def _replay(item):
     warnings.simplefilter("ignore")
     from geoh5py.shared.utils import dict_mapper, entity2uuid, fetch_active_workspace
     from geoh5py.ui_json.input_file import InputFile
-    fx = fixture()
+    fx = fixture(big=item.get("big", False))
     reps = Reps.from_doc(item["reps"])
     init = item["init"]
     raw, validate = init["raw"], init["validate"]
+    options = {} if init.get("upden", True) else {"validation_options": {"update_enabled": False}}
     kinds = [f["kind"] for f in raw]
     header = item["header"]
     viol = []
@@ -413,7 +425,7 @@ def _replay(item):
         case["steps"] = item["steps"][:upto + 1]
         viol.append({"signature": sig, "summary": msg, "case": case})
 
-    for stale in ("notes.geoh5", "c14_fixture.geoh5"):
+    for stale in ("notes.geoh5", fx["name"]):
         if os.path.exists(stale):
             os.remove(stale)
     ui_json = build_ui_json(raw, reps, fx)
@@ -426,7 +438,7 @@ def _replay(item):
         outcome, err, obs, disk = "ok", None, None, None
         try:
             if act == "Load":
-                new = InputFile(ui_json=ui_json, validate=validate)
+                new = InputFile(ui_json=ui_json, validate=validate, **{k: dict(v) for k, v in options.items()})
                 _ = new.data
                 infile = new
             elif act == "SetValue":
@@ -440,7 +452,7 @@ def _replay(item):
                     text = handle.read()
                 disk = json.loads(text, parse_constant=lambda name: f"<non-standard JSON constant {name}>")
             elif act == "Read":
-                new = InputFile.read_ui_json(path, validate=validate)
+                new = InputFile.read_ui_json(path, validate=validate, **{k: dict(v) for k, v in options.items()})
                 _ = new.data
                 infile = new
             elif act == "Demote":
@@ -533,7 +545,9 @@ def explore(cfg, seed, limit):
         prng = random.Random(f"{seed}:{cfg}:{pid}")
         if first not in init:
             raise MachineryError(f"{cfg}: path {pid} does not start in an initial state")
+        mentions_pg = any(t["x"].startswith("pg") for f in gr.states[first]["raw"] for t in f["value"]["e"])
         items.append({"cfg": cfg, "id": pid, "init": gr.states[first], "header": hdr[0],
+                      "big": mentions_pg or pid % 10 == 7,
                       "steps": [{"last": gr.edges[i][2], "dst": gr.states[gr.edges[i][1]]} for i in path],
                       "reps": Reps(prng, plain=pid % 3 == 0).doc()})
     edges_replayed = len({i for p in paths for i in p})
@@ -542,6 +556,49 @@ def explore(cfg, seed, limit):
             "edges_replayed": edges_replayed, "tlc_wall_s": round(res.wall_s, 1), "initial_files": len(init),
             "states_with_viol": sum(1 for st in gr.states.values() if st["viol"]), "exhaustive": exhaustive}
     return items, info
+
+
+class Background:
+    """TLC runs in child Python processes; results are JSON on their stdout."""
+    CODE = ("import json, sys; sys.path.insert(0, sys.argv[1]); from harness import tlc\n"
+            "r = tlc.run_tlc(sys.argv[2], sys.argv[3], sys.argv[4], workers=int(sys.argv[5]), heap=sys.argv[6], "
+            "keep_lines=False, timeout=3000)\n"
+            "print(json.dumps({'ok': r.ok, 'violated': r.violated, 'distinct': r.distinct, 'generated': r.generated, "
+            "'tail': r.raw_tail[-1500:]}))")
+
+    def __init__(self, jobs, width=4):
+        self.todo, self.width, self.running, self.done = list(jobs), width, {}, {}
+        self.pump()
+
+    def pump(self):
+        import subprocess
+        import sys
+        for cfg, proc in list(self.running.items()):
+            if proc.poll() is not None:
+                self._finish(cfg, proc)
+        while self.todo and len(self.running) < self.width:
+            cfg, workers, heap = self.todo.pop(0)
+            self.running[cfg] = subprocess.Popen(
+                [sys.executable, "-c", self.CODE, str(tlc.VERIF), SPEC_DIR, MODULE, cfg, str(workers), heap],
+                stdout=subprocess.PIPE, stderr=subprocess.PIPE, text=True)
+
+    def _finish(self, cfg, proc):
+        out, err = proc.communicate()
+        del self.running[cfg]
+        try:
+            self.done[cfg] = json.loads(out.strip().splitlines()[-1])
+        except (IndexError, ValueError) as exc:
+            raise MachineryError(f"background TLC run {cfg} failed:\n{out[-800:]}\n{err[-1500:]}") from exc
+
+    def drain(self):
+        while self.running or self.todo:
+            cfg, proc = next(iter(self.running.items()))
+            proc.wait()
+            self._finish(cfg, proc)
+            self.pump()
+
+    def result(self, cfg):
+        return self.done[cfg]
 
 
 def neg_cfg(dev):
@@ -555,7 +612,12 @@ def run(tier, seed):
     sig_count = Counter()
     exhaustive = True
     acts = Counter()
+    # the ideal configurations and the negative controls are independent TLC runs: they run as child processes
+    # (no threads in this process: the replay pool forks) next to the exports and replays, at most 4 at a time
+    bg = Background([(cfg, 2 if tier == "quick" else 4, "4g") for cfg in IDEAL[tier]] +
+                    [(neg_cfg(dev), 1, "1g") for dev in NEGATIVE[tier]])
     for cfg, limit in CFG[tier]:
+        bg.pump()
         items, info = explore(cfg, seed, limit)
         states += info["states"]
         trans += info["generated"]
@@ -581,25 +643,22 @@ def run(tier, seed):
                         "data_after_last_step": mid["steps"][-1]["dst"]["data"]})
     for v in viol:
         v["summary"] += f" [seen {sig_count[v['signature']]}x in this run]"
+    bg.drain()
     ideal = {}
     for cfg in IDEAL[tier]:
-        res = tlc.run_tlc(SPEC_DIR, MODULE, cfg, workers=TLC_WORKERS, heap="4g", keep_lines=False, timeout=3000)
-        if not res.ok:
-            raise MachineryError(f"{cfg}: the ideal specification violates {res.violated} (design-level error)\n"
-                                 f"{res.raw_tail[-1500:]}")
-        ideal[cfg] = {"states": res.distinct, "generated": res.generated}
-        states += res.distinct
-        trans += res.generated
+        res = bg.result(cfg)
+        if res["violated"] or not res["ok"]:
+            raise MachineryError(f"{cfg}: the ideal specification violates {res['violated']} (design-level error)\n"
+                                 f"{res['tail']}")
+        ideal[cfg] = {"states": res["distinct"], "generated": res["generated"]}
+        states += res["distinct"]
+        trans += res["generated"]
     neg = {}
-    from concurrent.futures import ThreadPoolExecutor
-    with ThreadPoolExecutor(max_workers=4) as pool:
-        futs = {dev: pool.submit(tlc.run_tlc, SPEC_DIR, MODULE, neg_cfg(dev), workers=1, heap="1g", keep_lines=False,
-                                 timeout=1800) for dev in NEGATIVE[tier]}
-        for dev, fut in futs.items():
-            res = fut.result()
-            if "NoViolation" not in res.violated:
-                raise MachineryError(f"negative control {neg_cfg(dev)}: NoViolation should fail, TLC says {res.violated}")
-            neg[dev] = "NoViolation violated"
+    for dev in NEGATIVE[tier]:
+        res = bg.result(neg_cfg(dev))
+        if "NoViolation" not in res["violated"]:
+            raise MachineryError(f"negative control {neg_cfg(dev)}: NoViolation should fail, TLC says {res['violated']}")
+        neg[dev] = "NoViolation violated"
     for need in ("Load", "Write", "Read", "SetValue", "Demote", "Promote"):
         if acts[need] < 20:
             raise MachineryError(f"vacuous coverage: action {need} replayed only {acts[need]} times")
